@@ -133,10 +133,13 @@ func caseTimeout(p *Prop, tier string, mult int) time.Duration {
 	return time.Duration(sec*mult) * time.Second
 }
 
-func childEnv(p *Prop, shard int, tier string) []string {
+func childEnv(p *Prop, shard int, tier string, dir string) []string {
 	var env []string
 	if p.Env != nil {
 		env = p.Env(shard, tier)
+	}
+	if p.Race {
+		env = append(env, fmt.Sprintf("GORACE=halt_on_error=0 exitcode=0 history_size=5 log_path=%s/race-%d", dir, shard))
 	}
 	if p.MemLimitMB > 0 && !p.Race {
 		env = append(env, fmt.Sprintf("VMON_MEMLIMIT_KB=%d", p.MemLimitMB*1024))
@@ -212,7 +215,7 @@ func RunParent(id, tier string) int {
 			defer wg.Done()
 			sem <- struct{}{}
 			defer func() { <-sem }()
-			env := childEnv(p, k, tier)
+			env := childEnv(p, k, tier, dir)
 			logPath := filepath.Join(dir, fmt.Sprintf("shard-%d.log", k))
 			args := []string{"worker", id, tier, strconv.FormatInt(seed, 10), strconv.Itoa(k), strconv.Itoa(base), dir}
 			exit, to := runChild(bin, args, env, logPath, watchdog)
@@ -255,7 +258,7 @@ func RunParent(id, tier string) int {
 				inconclusive = append(inconclusive, fmt.Sprintf("shard %d: %s with unreadable breadcrumb", k, what))
 				continue
 			}
-			env := childEnv(p, k, tier)
+			env := childEnv(p, k, tier, dir)
 			rlog := base + ".confirm.log"
 			wd := 120
 			if r.timedOut {
@@ -352,6 +355,14 @@ func RunParent(id, tier string) int {
 				distinct[u] = struct{}{}
 			}
 		}
+	}
+	if p.Race {
+		for _, rr := range collectRaceReports(dir) {
+			seqCase, _ := json.Marshal(map[string]interface{}{"shard": rr.Shard, "nshards": base0, "tier": tier})
+			viols = append(viols, Violation{Property: id, Monitor: "__shard__", Sig: id + "/data-race:" + rr.Sig, Seed: seed, Shard: rr.Shard, Case: seqCase,
+				Detail: "the Go race detector reported:\n" + clip(rr.Text, 3000)})
+		}
+		agg.Counters["race_log_files_scanned"] += int64(len(raceLogFiles(dir)))
 	}
 	if seqViol := func() bool {
 		for _, v := range viols {
@@ -522,6 +533,83 @@ func crashSig(logPath string) string {
 	return fatal + "@" + frame
 }
 
+type raceReport struct {
+	Shard int
+	Sig   string
+	Text  string
+}
+
+func raceLogFiles(dir string) []string {
+	m, _ := filepath.Glob(filepath.Join(dir, "race-*.*"))
+	sort.Strings(m)
+	return m
+}
+
+// collectRaceReports parses the race detector's log files: one entry per distinct pair of access sites.
+func collectRaceReports(dir string) []raceReport {
+	var out []raceReport
+	seen := map[string]bool{}
+	for _, f := range raceLogFiles(dir) {
+		b, err := os.ReadFile(f)
+		if err != nil {
+			continue
+		}
+		shard := 0
+		fmt.Sscanf(filepath.Base(f), "race-%d.", &shard)
+		for _, block := range strings.Split(string(b), "==================") {
+			if !strings.Contains(block, "WARNING: DATA RACE") {
+				continue
+			}
+			// the first frame of the code under test (else the first frame at all) in each access stack
+			var sites []string
+			inStack := false
+			got := false
+			first := ""
+			for _, l := range strings.Split(block, "\n") {
+				t := strings.TrimSpace(l)
+				if strings.HasSuffix(t, ":") && (strings.Contains(t, " by goroutine ") || strings.Contains(t, " by main goroutine")) && (strings.HasPrefix(t, "Write") || strings.HasPrefix(t, "Read") || strings.HasPrefix(t, "Previous") || strings.HasPrefix(t, "Atomic")) {
+					if inStack && !got && first != "" {
+						sites = append(sites, first)
+					}
+					inStack, got, first = true, false, ""
+					continue
+				}
+				if t == "" || strings.HasPrefix(t, "Goroutine ") {
+					if inStack && !got && first != "" {
+						sites = append(sites, first)
+					}
+					inStack = false
+					continue
+				}
+				if inStack && !got && !strings.HasPrefix(t, "/") {
+					fn := t
+					if i := strings.Index(fn, "("); i > 0 && strings.HasSuffix(fn, ")") && !strings.Contains(fn[i:], ".") {
+						fn = fn[:strings.LastIndex(fn, "(")]
+					}
+					if first == "" {
+						first = fn
+					}
+					if strings.HasPrefix(fn, "github.com/aundis/formula.") {
+						sites = append(sites, strings.TrimPrefix(fn, "github.com/aundis/"))
+						got = true
+					}
+				}
+			}
+			sort.Strings(sites)
+			sig := strings.Join(sites, "|")
+			if sig == "" {
+				sig = "unattributed"
+			}
+			if seen[sig] {
+				continue
+			}
+			seen[sig] = true
+			out = append(out, raceReport{Shard: shard, Sig: sig, Text: strings.TrimSpace(block)})
+		}
+	}
+	return out
+}
+
 func kind3(to bool) string {
 	if to {
 		return "hang"
@@ -644,7 +732,7 @@ func RunReplay(path string) int {
 	os.RemoveAll(dir)
 	os.MkdirAll(dir, 0o755)
 	tier := "quick"
-	env := childEnv(p, v.Shard, tier)
+	env := childEnv(p, v.Shard, tier, dir)
 	if v.Monitor == "__shard__" {
 		var sc struct {
 			Shard, NShards int
@@ -657,6 +745,16 @@ func RunReplay(path string) int {
 		exit, to := runChild(workerBinary(p), []string{"worker", v.Property, tier, strconv.FormatInt(v.Seed, 10), strconv.Itoa(sc.Shard), strconv.Itoa(sc.NShards), dir}, env, filepath.Join(dir, "replay.log"), 7200)
 		if exit != 0 {
 			fmt.Printf("VIOLATION property=%s replay=%s\n  %s when shard %d is re-run: %s\n", v.Property, path, kind3(to), sc.Shard, tail(filepath.Join(dir, "replay.log"), 14))
+			return 1
+		}
+		if p.Race {
+			if rr := collectRaceReports(dir); len(rr) > 0 {
+				fmt.Printf("VIOLATION property=%s replay=%s\n  data race when shard %d is re-run (%d distinct): %s\n%s\n", v.Property, path, sc.Shard, len(rr), rr[0].Sig, clip(rr[0].Text, 2000))
+				return 1
+			}
+		}
+		if vs := readViol(filepath.Join(dir, fmt.Sprintf("shard-%d.viol.json", sc.Shard))); len(vs) > 0 {
+			fmt.Printf("VIOLATION property=%s replay=%s\n  monitor=%s signature=%s\n  %s\n", v.Property, path, vs[0].Monitor, vs[0].Sig, clip(vs[0].Detail, 600))
 			return 1
 		}
 		fmt.Printf("replay %s: re-running the shard no longer fails\n", path)
